@@ -16,6 +16,10 @@ pub fn run<S: InterpreterTrait>(interpreter: &mut S) -> Result<(), RuntimeError>
     for fields in field_lists {
         let mut start: usize = 0;
         for Field { width, name } in fields {
+            if start + width > bytes.len() {
+                // the fields are wider than the record
+                return Err(RuntimeError::FieldOverflow);
+            }
             let s = to_ascii_string(&bytes[start..(start + width)]);
             let v = Variant::VString(s);
             // set variable in parent context, because we're inside the context of the built-in sub
